@@ -84,6 +84,13 @@ def run_impl(sc):
     _bump_ids(sc.get('offset', 1))
     flat2, _ = fam_floor.run_impl(sc)
     rep['again'] = common.first_diff(flat, flat2)
+    # ... and once more with the asset ids straddling a power of ten (default names are <Class>_<id>: nothing may depend on how they sort)
+    from simprocesd.model.factory_floor import Asset
+    saved = Asset._id_counter
+    Asset._id_counter = 10 ** len(str(saved)) - 1 - (1 + sc['seed'] % 3)
+    flat3, _ = fam_floor.run_impl(sc)
+    rep['straddle'] = common.first_diff(flat, flat3)
+    Asset._id_counter = saved + 7          # (nothing of the earlier runs is alive any more: the counter need not keep growing tenfold)
     s1, _ = fam_floor.run_impl(sc, weights='seeded')
     _bump_ids(2)
     s2, _ = fam_floor.run_impl(sc, weights='seeded')
@@ -111,6 +118,8 @@ def monitor_c14(sc, obs):
     rep = obs[-1]['repro']
     if rep.get('again') is not None:
         bad('C14/not-reproducible', 'the same scenario with the same tie-break weights, run again after the asset-id counter advanced by %d, differs at position %d of the normalised state trace' % (sc.get('offset', 1), rep['again']))
+    if rep.get('straddle') is not None:
+        bad('C14/not-reproducible', 'the same scenario with the same tie-break weights, run again with asset ids straddling a power of ten, differs at position %d of the normalised state trace' % rep['straddle'])
     if rep.get('seeded') is not None:
         bad('C14/seeded-differs', 'two runs after random.seed(%d) differ at position %d of the normalised state trace' % (sc['seed'], rep['seeded']))
     if rep.get('split') is not None:
